@@ -581,6 +581,12 @@ func (a *fakeAPI) liveSessions() int {
 	return n
 }
 
+func (a *fakeAPI) rvNow() int {
+	a.mu.Lock()
+	defer a.mu.Unlock()
+	return a.rv
+}
+
 func (a *fakeAPI) listCount() int {
 	a.mu.Lock()
 	defer a.mu.Unlock()
